@@ -386,16 +386,17 @@ def register_udfs(con, dialect, variant=None):
        computes the python slice the generic STRING_SLICE formula was written for."""
     from checks import C25
     model = {'postgres': 'postgres', 'cockroach': 'postgres', 'mysql': 'mysql'}[dialect]
-    C25.register_model(con, model, C25._length_chars if variant == 'length_chars' else None)
-    if variant == 'substr_negpos_intent' and model == 'mysql':
+    variants = set((variant or '').split('+'))          # several switches at once: 'trim_charset+substr_negpos_intent'
+    C25.register_model(con, model, C25._length_chars if 'length_chars' in variants else None)
+    if 'substr_negpos_intent' in variants and model == 'mysql':
         con.create_function('substr', 2, lambda s, p: mysql_substr_intent(s, p, None, True))
         con.create_function('substr', 3, lambda s, p, n: mysql_substr_intent(s, p, n))
-    if variant == 'extremes_null':
+    if 'extremes_null' in variants:
         con.create_function('greatest', -1, sqlite_minmax(max))
         con.create_function('least', -1, sqlite_minmax(min))
     shimlib.register_string_model(con, model)
     if model == 'postgres': con.create_function('concat', -1, pg_concat)
-    con.create_function('mysql_trim', 3, charset_trim if variant == 'trim_charset' else mysql_trim)
+    con.create_function('mysql_trim', 3, charset_trim if 'trim_charset' in variants else mysql_trim)
     con.create_aggregate('string_agg', 2, _make_agg(False))
     con.create_aggregate('string_agg_distinct', 2, _make_agg(True))
     con.create_aggregate('group_concat_distinct', 2, _make_agg(True))
